@@ -18,7 +18,7 @@ pub struct Failing {
 
 /// Runs the scenario and returns the first violation of `property`.
 pub fn run_and_judge(property: &str, scn: &Scenario, trace: bool) -> Result<(RunRecord, Vec<Violation>), String> {
-    let opts = ExecOpts { trace, step_budget: 60_000, baseline_step_cap: 8_000 };
+    let opts = ExecOpts { trace, step_budget: 15_000, baseline_step_cap: 8_000 };
     match execute(scn, opts) {
         RunOutcome::HarnessError(e) => Err(e),
         RunOutcome::Done(rec) => {
@@ -146,7 +146,8 @@ pub fn minimise(property: &str, start: Failing) -> (Failing, u64) {
     // Wall time bounds only how small the reported scenario gets, never whether a violation is
     // reported: the replay file is whatever failing scenario has been reached by then.
     let started = std::time::Instant::now();
-    let in_time = |s: &std::time::Instant| s.elapsed().as_secs() < 20;
+    // (the engine leaks every proof tree, so memory bounds the number of candidate runs as well)
+    let in_time = |s: &std::time::Instant| s.elapsed().as_secs() < 20 && crate::exec::resident_kib() < 3_000_000;
     while progress && rounds < 4 && m.tests < 600 && in_time(&started) {
         progress = false;
         rounds += 1;
